@@ -95,6 +95,17 @@ Theorem C07_folder_refines_bucket : forall t q kids marker max,
 Proof. exact folder_walk_bucket. Qed.
 Print Assumptions C07_folder_refines_bucket.
 
+(* following the markers of a folder listing yields every entry of the folder exactly once, objects and common prefixes *)
+Theorem C07_folder_pagination_complete : forall t q kids max fuel,
+  q <> "." -> q <> "" ->
+  forallb valid_seg (split_slash q "") = true -> resolve t (split_slash q "") = Some (D false kids) ->
+  kids <> [] -> kids_ok kids -> folder_keyed q kids -> sorted_b (map fst (nodes_at q (D false kids))) = true ->
+  0 < max -> List.length kids < fuel ->
+  let E := entries_after (keys_at q (D false kids)) (q ++ "/") "/" "" in
+  fwpages t (q ++ "/") "" max fuel = (objs_of E, cps_of E).
+Proof. exact folder_pages_all. Qed.
+Print Assumptions C07_folder_pagination_complete.
+
 (* internal bookkeeping names never appear: a prefix that leads into (or below) a bookkeeping directory lists nothing, whatever
    the tree, delimiter, marker and page size; at the top level such a directory is skipped by the walk itself (Model.Walk.cb) *)
 Theorem C07_bookkeeping_prefix_empty : forall t sd r delim marker max skip flag,
